@@ -76,7 +76,7 @@ theorem cnot_zero_noise (F : ℝ → ℝ) (phi_ctr phi_trg t_cnot : ℝ) (w : CN
     (hI : w.relaxation_gate.I = 0) :
     CNOT.construct F phi_ctr phi_trg t_cnot 0 0 0 0 0 0 0 w
       = NoiseFree.CNOT phi_ctr phi_trg t_cnot 0 0 0 0 0 0 0 := by
-  have hp : CNOT.p_cr 0 0 0 = 0 := by simp [CNOT.p_cr]
+  have hp : CNOT.p_cr_1 0 0 0 = 0 := by simp [CNOT.p_cr_1, CNOT.p_cr]
   simp only [CNOT.construct, NoiseFree.CNOT, hp, cr_zero_noise, x_zero_noise, sx_zero_noise,
     single_qubit_zero_noise, relaxation_zero_noise _ _ hI]
   simp only [nf_CR_irrel _ _ (NoiseFree.CNOT_.t_cr _) _ _ _ _ _, nf_relax_irrel]
@@ -85,7 +85,7 @@ theorem cnot_inv_zero_noise (F : ℝ → ℝ) (phi_ctr phi_trg t_cnot : ℝ) (w 
     (hI : w.relaxation_gate.I = 0) :
     CNOTInv.construct F phi_ctr phi_trg t_cnot 0 0 0 0 0 0 0 w
       = NoiseFree.CNOT_inv phi_ctr phi_trg t_cnot 0 0 0 0 0 0 0 := by
-  have hp : CNOTInv.p_cr 0 0 0 = 0 := by simp [CNOTInv.p_cr]
+  have hp : CNOTInv.p_cr_1 0 0 0 = 0 := by simp [CNOTInv.p_cr_1, CNOTInv.p_cr]
   simp only [CNOTInv.construct, NoiseFree.CNOT_inv, hp, cr_zero_noise, x_zero_noise, sx_zero_noise,
     single_qubit_zero_noise, relaxation_zero_noise _ _ hI]
   simp only [nf_CR_irrel _ _ (NoiseFree.CNOT_inv_.t_cr _) _ _ _ _ _, nf_relax_irrel]
@@ -94,7 +94,7 @@ theorem ecr_zero_noise (F : ℝ → ℝ) (phi_ctr phi_trg t_ecr : ℝ) (w : ECR.
     (hI : w.relaxation_gate.I = 0) :
     ECR.construct F phi_ctr phi_trg t_ecr 0 0 0 0 0 0 0 w
       = NoiseFree.ECR phi_ctr phi_trg t_ecr 0 0 0 0 0 0 0 := by
-  have hp : ECR.p_cr 0 0 0 = 0 := by simp [ECR.p_cr]
+  have hp : ECR.p_cr_1 0 0 0 = 0 := by simp [ECR.p_cr_1, ECR.p_cr]
   simp only [ECR.construct, NoiseFree.ECR, hp, cr_zero_noise, x_zero_noise, sx_zero_noise,
     single_qubit_zero_noise, relaxation_zero_noise _ _ hI]
   simp only [nf_CR_irrel _ _ (NoiseFree.ECR_.t_cr _) _ _ _ _ _, nf_relax_irrel]
@@ -103,7 +103,7 @@ theorem ecr_inv_zero_noise (F : ℝ → ℝ) (phi_ctr phi_trg t_ecr : ℝ) (w : 
     (hI : w.relaxation_gate.I = 0) :
     ECRInv.construct F phi_ctr phi_trg t_ecr 0 0 0 0 0 0 0 w
       = NoiseFree.ECR_inv phi_ctr phi_trg t_ecr 0 0 0 0 0 0 0 := by
-  have hp : ECRInv.p_cr 0 0 0 = 0 := by simp [ECRInv.p_cr]
+  have hp : ECRInv.p_cr_1 0 0 0 = 0 := by simp [ECRInv.p_cr_1, ECRInv.p_cr]
   simp only [ECRInv.construct, NoiseFree.ECR_inv, hp, cr_zero_noise, x_zero_noise, sx_zero_noise,
     single_qubit_zero_noise, relaxation_zero_noise _ _ hI]
   simp only [nf_CR_irrel _ _ (NoiseFree.ECR_inv_.t_cr _) _ _ _ _ _, nf_relax_irrel]
@@ -136,7 +136,8 @@ theorem scaled_CNOT_zero_noise (F : ℝ → ℝ) (scale phi_ctr phi_trg t : ℝ)
 `Real.sqrt` is total in Lean (`0` on negative numbers) whereas `np.sqrt` yields NaN there; the
 hypotheses `0 ≤ p`, `0 ≤ T2`, `0 ≤ p_cr`, `0 < t_cr` name the domain on which the generated
 definitions and the Python agree (they are the physically meaningful values; the region where the
-*derived* cross-resonance error is negative is excluded by `0 ≤ p_cr` — see DESIGN.md, R2). -/
+*derived* cross-resonance error is negative needs no hypothesis any more: the code uses 0 there, `pcr_clamped_nonneg`;
+on the pinned tree it took the square root of a negative number — R2, repaired). -/
 
 abbrev U2 := unitary (Matrix (Fin 2) (Fin 2) ℂ)
 abbrev U4 := unitary (Matrix (Fin 4) (Fin 4) ℂ)
@@ -201,11 +202,21 @@ private theorem smul_unitary {n : Type} [Fintype n] [DecidableEq n] (z : ℂ) (h
   · rw [star_smul, smul_mul_smul_comm, hA.1, hz, one_smul]
   · rw [star_smul, smul_mul_smul_comm, hA.2, hz', one_smul]
 
+/-- the error handed to the CR pulses is never negative: where the derived value is negative the code uses 0 (repair of R2) -/
+theorem pcr_clamped_nonneg (p2 pc pt : ℝ) :
+    0 ≤ CNOT.p_cr_1 p2 pc pt ∧ 0 ≤ CNOTInv.p_cr_1 p2 pc pt ∧ 0 ≤ ECR.p_cr_1 p2 pc pt ∧ 0 ≤ ECRInv.p_cr_1 p2 pc pt := by
+  refine ⟨?_, ?_, ?_, ?_⟩
+  · unfold CNOT.p_cr_1; split_ifs with h <;> [exact le_refl 0; exact not_lt.mp h]
+  · unfold CNOTInv.p_cr_1; split_ifs with h <;> [exact le_refl 0; exact not_lt.mp h]
+  · unfold ECR.p_cr_1; split_ifs with h <;> [exact le_refl 0; exact not_lt.mp h]
+  · unfold ECRInv.p_cr_1; split_ifs with h <;> [exact le_refl 0; exact not_lt.mp h]
+
 theorem cnot_unitary (F : ℝ → ℝ) (phi_ctr phi_trg t_cnot p_cnot p_c p_t T2c T2t : ℝ)
-    (hcr : 0 ≤ CNOT.p_cr p_cnot p_c p_t) (ht : 0 < CNOT.t_cr t_cnot)
+    (ht : 0 < CNOT.t_cr t_cnot)
     (hpc : 0 ≤ p_c) (hpt : 0 ≤ p_t) (hc : 0 ≤ T2c) (htt : 0 ≤ T2t)
     (w : CNOT.Samples) (hI : w.relaxation_gate.I = 0) :
     CNOT.construct F phi_ctr phi_trg t_cnot p_cnot p_c p_t 0 T2c 0 T2t w ∈ U4 := by
+  have hcr := (pcr_clamped_nonneg p_cnot p_c p_t).1
   unfold CNOT.construct
   refine mul_mem (mul_mem (mul_mem (cr_unitary F _ _ _ _ _ _ ht hcr hc htt _) (kron2_mem_unitary ?_ ?_))
     (cr_unitary F _ _ _ _ _ _ ht hcr hc htt _)) (kron2_mem_unitary ?_ ?_)
@@ -228,26 +239,29 @@ macro "unitary_step" : tactic => `(tactic| first
   | (with_reducible apply relaxation_unitary <;> assumption))
 
 theorem cnot_inv_unitary (F : ℝ → ℝ) (phi_ctr phi_trg t_cnot p_cnot p_c p_t T2c T2t : ℝ)
-    (hcr : 0 ≤ CNOTInv.p_cr p_cnot p_c p_t) (ht : 0 < CNOTInv.t_cr t_cnot)
+    (ht : 0 < CNOTInv.t_cr t_cnot)
     (hpc : 0 ≤ p_c) (hpt : 0 ≤ p_t) (hc : 0 ≤ T2c) (htt : 0 ≤ T2t)
     (w : CNOTInv.Samples) (hI : w.relaxation_gate.I = 0) :
     CNOTInv.construct F phi_ctr phi_trg t_cnot p_cnot p_c p_t 0 T2c 0 T2t w ∈ U4 := by
+  have hcr := (pcr_clamped_nonneg p_cnot p_c p_t).2.1
   unfold CNOTInv.construct
   repeat' unitary_step
 
 theorem ecr_unitary (F : ℝ → ℝ) (phi_ctr phi_trg t_ecr p_ecr p_c p_t T2c T2t : ℝ)
-    (hcr : 0 ≤ ECR.p_cr p_ecr p_c p_t) (ht : 0 < ECR.t_cr t_ecr)
+    (ht : 0 < ECR.t_cr t_ecr)
     (hpc : 0 ≤ p_c) (hpt : 0 ≤ p_t) (hc : 0 ≤ T2c) (htt : 0 ≤ T2t)
     (w : ECR.Samples) (hI : w.relaxation_gate.I = 0) :
     ECR.construct F phi_ctr phi_trg t_ecr p_ecr p_c p_t 0 T2c 0 T2t w ∈ U4 := by
+  have hcr := (pcr_clamped_nonneg p_ecr p_c p_t).2.2.1
   unfold ECR.construct
   repeat' unitary_step
 
 theorem ecr_inv_unitary (F : ℝ → ℝ) (phi_ctr phi_trg t_ecr p_ecr p_c p_t T2c T2t : ℝ)
-    (hcr : 0 ≤ ECRInv.p_cr p_ecr p_c p_t) (ht : 0 < ECRInv.t_cr t_ecr)
+    (ht : 0 < ECRInv.t_cr t_ecr)
     (hpc : 0 ≤ p_c) (hpt : 0 ≤ p_t) (hc : 0 ≤ T2c) (htt : 0 ≤ T2t)
     (w : ECRInv.Samples) (hI : w.relaxation_gate.I = 0) :
     ECRInv.construct F phi_ctr phi_trg t_ecr p_ecr p_c p_t 0 T2c 0 T2t w ∈ U4 := by
+  have hcr := (pcr_clamped_nonneg p_ecr p_c p_t).2.2.2
   unfold ECRInv.construct
   repeat' unitary_step
 
